@@ -6,6 +6,7 @@ open Uhppote
 def handle : List String → List String → Option String
   | ["bcd-enc", h], impl => (fromHex h).map fun s => Driver.expect (Driver.fmtOptBytes (Spec.BCD.encode s)) impl
   | ["bcd-dec", h], impl => (fromHex h).map fun s => Driver.expect (Driver.fmtOptBytes (Spec.BCD.decode s)) impl
+  | ["bcd-fresh", _], impl => some (Driver.expect "same" impl)
   | _, _ => none
 
 end Uhppote.Driver.SpecBCD
